@@ -3,10 +3,12 @@ CONSTANTS
   MaxGroups = 2
   MaxObjects = 1
   MaxData = 1
+  MaxDrill = 0
   MaxPGs = 0
   ObjClasses = {"Points"}
   Prims = {"float"}
   ShareTypes = FALSE
+  UnnamedPGs = FALSE
   Deviations = {"RebuildRootFlatOrder"}
 INVARIANT TypeOK
 INVARIANT EveryItemClassified
